@@ -322,7 +322,13 @@ class ElementList(MutableSequence):
         elif isinstance(value, Element):  # it is already an instance of Element
             child = value
         elif isinstance(value, BaseDataType):
-            child = self.create_element(name, False, reference)
+            if reference is None:
+                raise ChildNotFound(name)
+            # the new child takes the value before it is attached: it replaces the addressed repetition in place
+            # like any other assignment, and a refused value leaves the list as it was
+            child = reference['cls'](reference['name'], reference=reference['ref'],
+                                     validation_level=self.element.validation_level,
+                                     version=self.element.version)
             child.value = value
         else:
             raise ChildNotValid(value, child_name)
